@@ -23,7 +23,8 @@ func Bytes(bytes uint64) string {
 		exp++
 	}
 
-	units := []string{"KB", "MB", "GB", "TB", "PB"}
+	// a uint64 reaches into the exabyte range (2^60 and above)
+	units := []string{"KB", "MB", "GB", "TB", "PB", "EB"}
 	return fmt.Sprintf("%.2f %s", float64(bytes)/float64(div), units[exp])
 }
 
